@@ -431,7 +431,9 @@ class Interp:
                 raise Unsupported("bare raise outside handler")
             raise e
         v = self.eval(node.exc, frame)
-        raise self.to_pyexc(v)
+        e = self.to_pyexc(v)
+        e.from_program = True          # raised by a `raise` statement of the interpreted code (not by an operation of the engine)
+        raise e
 
     def to_pyexc(self, v):
         if isinstance(v, BuiltinType):
@@ -781,7 +783,29 @@ class Interp:
         return GList(pieces)
 
     def ex_GeneratorExp(self, node, frame):
-        return self.ex_ListComp(node, frame)
+        # a lazy iterator (next(), early exit of any()/all()/next(..., default) behave as in Python)
+        return ops.IterVal(self._comp_gen(node, frame))
+
+    def _comp_gen(self, node, frame):
+        cf = Frame(frame.func, frame.module, closure=frame)
+        cf.is_comp = True
+        if frame.func is None and not getattr(frame, "is_comp", False) and frame.closure is None:
+            cf.closure = None
+            cf.module = frame.module
+            if getattr(frame, "is_class_body", False):
+                cf.closure = frame
+
+        def rec(i):
+            if i == len(node.generators):
+                yield self.eval(node.elt, cf)
+                return
+            g = node.generators[i]
+            it = self.eval(g.iter, cf if i else frame)
+            for v in self.iterate(it):
+                self.assign(g.target, v, cf)
+                if all(self.truth(self.eval(c, cf)) for c in g.ifs):
+                    yield from rec(i + 1)
+        yield from rec(0)
 
     def ex_SetComp(self, node, frame):
         out = []
